@@ -31,6 +31,7 @@ func (m *Mutex) Unlock() {
 	}
 	m.locked = false
 	vrt.Progress()
+	vrt.ReleasePoint("Mutex.Unlock") // others may run right after the release (catches work done after a too-early unlock)
 }
 
 type RWMutex struct {
@@ -48,6 +49,7 @@ func (m *RWMutex) Unlock() {
 	}
 	m.writer = false
 	vrt.Progress()
+	vrt.ReleasePoint("RWMutex.Unlock")
 }
 func (m *RWMutex) RLock() {
 	vrt.Op(func() bool { return !m.writer }, 0, "RWMutex.RLock")
@@ -59,6 +61,7 @@ func (m *RWMutex) RUnlock() {
 	}
 	m.readers--
 	vrt.Progress()
+	vrt.ReleasePoint("RWMutex.RUnlock")
 }
 func (m *RWMutex) RLocker() Locker { return (*rlocker)(m) }
 
